@@ -22,7 +22,7 @@ CHECKS = {
         ref="5-C03"),
     "C04": dict(
         technique="TLA+ steepest-descent contract (FlowContract!C04) with exact integer slope comparison, TLC on recorded traces; Router L2 model refines it on every field of a small anisotropic raster",
-        text="Every recorded single-router state: terminals are self receivers, a node is its own receiver exactly when no unmasked neighbour entry of the Grid specification is strictly lower, otherwise nrec = 1, weight bit-equal 1, stored distance equal to the grid distance of that entry, and drop_r^2 * dsq_j >= drop_j^2 * dsq_r for every lower neighbour j (exact integers: fields m*2^k, integer anisotropic spacings, wrap-around neighbours, integer-coordinate meshes).",
+        text="Every recorded single-router state: terminals are self receivers, a node is its own receiver exactly when no unmasked neighbour entry of the Grid specification is strictly lower, otherwise nrec = 1, weight bit-equal 1, stored distance equal to the grid distance of that entry, and drop_r^2 * dsq_j >= drop_j^2 * dsq_r for every lower neighbour j (exact integers: fields m*2^k, integer anisotropic spacings, wrap-around neighbours, integer-coordinate meshes). Grids of 260 000 .. 400 000 nodes (BigGridTrace): the same predicate at sampled nodes (2^16 / 2^17 / 2^18 apart, row starts, ends) after a sequential and a multi-threaded update, elevation given by an integer formula of (row, column) that TLC evaluates itself.",
         note="Maximality asserted only for fields given as integers times 2^k with k >= -900 (exact and floating orders provably agree there); existence asserted everywhere including subnormal scale and epsilon-filled terrain.",
         ref="5-C04"),
     "C05": dict(
@@ -37,7 +37,7 @@ CHECKS = {
         ref="5-C06"),
     "C07": dict(
         technique="TLA+ Grid specification (NeighSeq from geometry: one step under the connectivity, wrap-around only on looped axes) vs every accessor, validated by TLC on recorded query histories (GridTrace); spec-level symmetry and degree table checked by TLC",
-        text="Complete over raster shapes 2..4 x 2..4 (2..5 thorough) x rook/queen/bishop x 4 looping combinations x spacings {1x1, 2x3, 5x1} x power-of-two scales, and profiles 2..6 looped or not: every node is queried through count / indices / indices-into-buffer / distances / neighbor structs / (row, col) overloads on a cached and a cache-less instance, in shuffled order with repeated single-accessor queries; TLC compares every answer, as a bag of (index, squared distance, status) entries, with the specification's geometric answer, checks that the accessors agree position by position, that the relation is symmetric (as bags: size-2 looped axes list a node twice) and that the degree follows the node's position.",
+        text="Complete over raster shapes 2..4 x 2..4 (2..5 thorough) x rook/queen/bishop x 4 looping combinations x spacings {1x1, 2x3, 5x1} x power-of-two scales, and profiles 2..6 looped or not: every node is queried through count / indices / indices-into-buffer / distances / neighbor structs / (row, col) overloads on a cached and a cache-less instance, in shuffled order with repeated single-accessor queries; TLC compares every answer, as a bag of (index, squared distance, status) entries, with the specification's geometric answer, checks that the accessors agree position by position, that the relation is symmetric (as bags: size-2 looped axes list a node twice) and that the degree follows the node's position. Every raster width 6..256 is queried through every accessor around its row starts; 30 % of the grids are built by the from_length factories; scales 2^-20 .. 2^14; grids of 260 000 .. 400 000 nodes are queried at sampled nodes (BigGridTrace: the answer is computed from the descriptor for the queried node only).",
         note="Distances are compared through round(d^2 / 4^sc) (exact for integer spacings times a power of two). The specification has no hidden state, so cache on = cache off and order independence follow from every single answer being the geometric one.",
         ref="5-C07"),
     "C09": dict(
@@ -87,7 +87,7 @@ CHECKS = {
         ref="5-C17"),
     "C18": dict(
         technique="TLA+ mesh specification in exact rationals (edges from triangles, boundary = edges of exactly one triangle, circumcentric vertex shares) vs the real trimesh, validated by TLC (GridTrace)",
-        text="Lattice meshes of 1x1..3x3 cells, either diagonal per cell, random vertex order and orientation per triangle, up to 2 triangles removed, interior points jittered (obtuse triangles), an isolated node, power-of-two scales: neighbours are exactly the nodes sharing a triangle edge (bag equality on every accessor: symmetric, no duplicates, squared distance exact), default statuses fixed-value exactly on boundary nodes, node areas equal the sum of circumcentric shares within one unit of 2^-12 per incident triangle, areas sum to the triangles' total area.",
+        text="Lattice meshes of 1x1..3x3 cells, either diagonal per cell, random vertex order and orientation per triangle, up to 2 triangles removed, interior points jittered (obtuse triangles), an isolated node, power-of-two scales from 2^-30 to 2^20: neighbours are exactly the nodes sharing a triangle edge (bag equality on every accessor: symmetric, no duplicates, squared distance exact), default statuses fixed-value exactly on boundary nodes, node areas equal the sum of circumcentric shares within one unit of 2^-12 per incident triangle, areas sum to the triangles' total area.",
         note="Integer coordinates (exact squared lengths and areas); degenerate triangles are outside the domain.",
         ref="5-C18"),
     "C19": dict(
